@@ -21,9 +21,15 @@ class CVRPAdapter(RoutingAdapter):
     sol_fn = "check_C06_sol"
     reward_td = "reset"
     shard = 150
+    # keys of the step output compared with the row model after every step in C02 / C04 (Harness/HCVRP.v book_obs)
+    book_keys = (("current_node", "int"), ("used_capacity", "f"), ("visited", "bits"))
+    book_fn = "check_book"
+    book_type = "cvrp_book"
 
     def variants(self, tier):
-        return [{"num_loc": n} for n in ([3, 5, 8] if tier == "quick" else [3, 4, 6, 10, 20])]
+        # num_loc = 1 and 2: degenerate but legal sizes (one-column demand tensors: `td["demand"][:, 0]` vs `[:, 1]`)
+        # (listed last: the C05 enumeration budget goes to the first tiny instances met, which should stay the n = 3 ones)
+        return [{"num_loc": n} for n in ([3, 5, 8, 1, 2] if tier == "quick" else [3, 4, 6, 10, 20, 1, 2])]
 
     def make_env(self, variant):
         from rl4co.envs import CVRPEnv
